@@ -342,7 +342,8 @@ def run_unindexed(make_stream, tbq):
     return _emit(events, crash)
 
 
-def make_socket_stream(chunks, q):
+def make_socket_stream(chunks, q, cls=None):
+    cls = cls or ST.SocketStream
     # an earlier connection that was closed in the middle of a line (its carry-over must die with it)
     d = ST.SocketStream.__new__(ST.SocketStream)
     ST.Stream.__init__(d, _FakeSock([b'!AIVDM,1,1,,A,15M67FC000G?ufbE`FepT@3n00Sa,0*5C\r\n!AIVDM,1,1,,B,1decoy']), tbq=None)
@@ -350,14 +351,46 @@ def make_socket_stream(chunks, q):
         list(d.read())
     except Exception:  # noqa
         pass
-    s = ST.SocketStream.__new__(ST.SocketStream)
+    s = cls.__new__(cls)
     ST.Stream.__init__(s, _FakeSock(chunks), tbq=q)
     return s
 
 
+SOCKET_CLASSES = [ST.SocketStream, ST.TCPConnection, ST.UDPReceiver]
+
+
+def _family(results):
+    """the members of a reader family (the generic socket reader, the TCP and the UDP reader; the
+    file-object and the file-name reader) share one contract: what differs between them is reported"""
+    names = list(results)
+    first = results[names[0]]
+    for n in names[1:]:
+        if results[n] != first:
+            return 'READERS-DIFFER %s=%s %s=%s' % (names[0], first[:300], n, results[n][:300])
+    return first
+
+
 def sock_read(chunks):
-    s = make_socket_stream(chunks, None)
-    return list(s.read())
+    out = {}
+    for cls in SOCKET_CLASSES:
+        try:
+            out[cls.__name__] = '[' + ','.join(hx(l) for l in make_socket_stream(chunks, None, cls).read()) + ']'
+        except Exception as e:  # noqa
+            out[cls.__name__] = err(e)
+    return _family(out)
+
+
+def file_readers(content, tbq):
+    import tempfile
+    out = {'BinaryIOStream': run_unindexed(lambda q: ST.BinaryIOStream(io.BytesIO(content), tbq=q), tbq)}
+    with tempfile.NamedTemporaryFile(suffix='.nmea') as f:
+        f.write(content)
+        f.flush()
+
+        def mk(q):
+            return ST.FileReaderStream(f.name, tbq=q)
+        out['FileReaderStream'] = run_unindexed(mk, tbq)
+    return _family(out)
 
 
 def show_tb(tb):
@@ -478,10 +511,23 @@ def run_tracker(ordered, ttl, ops):
     tr.register_callback(TR.AISTrackEvent.CREATED, lambda t: evs.append(('C', t.mmsi)))
     tr.register_callback(TR.AISTrackEvent.UPDATED, lambda t: evs.append(('U', t.mmsi)))
     tr.register_callback(TR.AISTrackEvent.DELETED, lambda t: evs.append(('D', t.mmsi)))
+    # a second observer: ONE callable registered for all three events (it cannot tell the events apart, but it
+    # must be called once per event)
+    calls = [0]
+
+    def any_event(t):
+        calls[0] += 1
+
+    for ev in TR.AISTrackEvent:
+        tr.register_callback(ev, any_event)
+    total = [0]
     CLOCK.t = 0.0
     out = []
 
     def take():
+        total[0] += len(evs)
+        if calls[0] != total[0]:
+            evs.append(('OBSERVER-CALLED-%d-TIMES-FOR-%d-EVENTS-' % (calls[0], total[0]), 0))
         others = ['%s%d' % e for e in evs if e[0] != 'D']
         dels = ['D%d' % m for m in sorted(m for k, m in evs if k == 'D')]
         del evs[:]
@@ -587,12 +633,18 @@ class _Wrap:
 IDX, KEEP = {}, []
 
 
+_SIB_SEEN = set()
+
+
 def run_chain(fspec, lines):
     IDX.clear()
     del KEEP[:]
     filters = [make_filter(s) for s in fspec.split('+')]
     chain = FL.FilterChain(filters)
     elems = []
+    fresh = [l for l in lines if l not in _SIB_SEEN]      # once per process and line is enough here
+    _SIB_SEEN.update(fresh)
+    _siblings(fresh)
     for i, l in enumerate(lines):
         try:
             pyais.decode(l)
@@ -618,13 +670,13 @@ def step2(line):
     if cmd == 'stream':
         return run_stream(p[1], p[2] == '1', [unhx(x) for x in p[3:]])
     if cmd == 'file':
-        content = unhx(p[2])
-        return run_unindexed(lambda q: ST.BinaryIOStream(io.BytesIO(content), tbq=q), p[1] == '1')
+        return file_readers(unhx(p[2]), p[1] == '1')
     if cmd == 'socket':
         chunks = [unhx(x) for x in p[2:]]
-        return run_unindexed(lambda q: make_socket_stream(chunks, q), p[1] == '1')
+        return _family({cls.__name__: run_unindexed(lambda q, cls=cls: make_socket_stream(chunks, q, cls), p[1] == '1')
+                        for cls in SOCKET_CLASSES})
     if cmd == 'sock':
-        return '[' + ','.join(hx(l) for l in sock_read([unhx(x) for x in p[1:]])) + ']'
+        return sock_read([unhx(x) for x in p[1:]])
     if cmd == 'tbq':
         return run_tbq([unhx(x) for x in p[1:]])
     if cmd == 'tagblock.parse':
